@@ -525,6 +525,37 @@ def proof_step(ctx, props_file, model_files, gen_writer=None, extra_obligation_f
         "Coq 8.16.1 kernel (coqc; vm_compute used in Gen obligations and cases; no native_compute)",
         "axioms reported by Print Assumptions under the property theorems: %s" % (", ".join(axioms) if axioms else "none (closed under the global context)"),
     ]
+    if ok and ctx.thorough:
+        # independent re-check of the compiled property file and everything it depends on
+        mod = "Naga." + props_file[:-2].replace("/", ".")
+        t0 = time.time()
+        try:
+            p = subprocess.run(["coqchk", "-silent", "-o", "-Q", ".", "Naga", mod], cwd=COQ, stdout=subprocess.PIPE,
+                               stderr=subprocess.STDOUT, text=True, errors="replace", timeout=3600)
+            out, rc = p.stdout, p.returncode
+        except subprocess.TimeoutExpired:
+            out, rc = "coqchk: timeout", 124
+        ax = []
+        grab = False
+        for line in out.splitlines():
+            if line.strip().startswith("* Axioms:"):
+                grab = True
+                rest = line.split("Axioms:", 1)[1].strip()
+                if rest and rest != "<none>":
+                    ax.append(rest)
+                continue
+            if grab:
+                if line.strip().startswith("*") or not line.strip():
+                    grab = False
+                else:
+                    ax.append(line.strip())
+        ctx.cov["coqchk"] = {"module": mod, "rc": rc, "seconds": round(time.time() - t0, 1), "axioms": ax,
+                             "no_type_in_type": "type-in-type: <none>" in out, "no_unsafe_fixpoints": "unsafe (co)fixpoints: <none>" in out,
+                             "no_assumed_positivity": "positivity is assumed: <none>" in out}
+        ctx.cov["trusted_base"].append("coqchk -silent -o re-checked %s and its dependencies (rc %d); axioms it lists: %s"
+                                       % (mod, rc, ", ".join(ax) if ax else "none"))
+        if rc != 0 or not (ctx.cov["coqchk"]["no_type_in_type"] and ctx.cov["coqchk"]["no_unsafe_fixpoints"] and ctx.cov["coqchk"]["no_assumed_positivity"]):
+            ctx.violation("coqchk does not accept %s: %s" % (mod, out[-800:]), found_input=False, broken="coqchk on " + mod)
     return ok, failed, log
 
 
